@@ -30,7 +30,7 @@ Proof.
   pose proof (step_inv is_action L s (Released k) Hwf I) as R. cbn zeta in R.
   destruct R as [I1 [_ [_ [_ Hcl]]]].
   apply IH; [exact Hwf | exact Hna | exact I1 |].
-  destruct Hc as [C1 C2]. exact (Hcl Hna C1 C2).
+  destruct Hc as [C1 C2]. exact (proj1 Hcl Hna C1 C2).
 Qed.
 
 Lemma mstep_noabs L s i p :
@@ -41,7 +41,7 @@ Proof.
   - pose proof (step_inv is_action L s e Hwf I) as R. cbn zeta in R.
     destruct (step is_action L s e) as [[evs rep] s']. cbn [fst snd] in *.
     destruct R as [_ [_ [Hsub [Hsup Hcl]]]].
-    split; [exact (Hcl Hna C1 C2)|].
+    split; [exact (proj1 Hcl Hna C1 C2)|].
     intros x. split.
     + intros Hx. apply Hsub in Hx. apply (apply_ev_seteq _ _ e Hp). exact Hx.
     + intros Hx. apply (Hsup C1). apply (apply_ev_seteq _ _ e Hp). exact Hx.
